@@ -36,6 +36,7 @@ type robustCase struct {
 	Var    int    `json:"var"`    // target variant
 	Bytes  []byte `json:"bytes"`
 	Key    string `json:"key"`
+	Kind   string `json:"kind,omitempty"` // reader kind for file inputs
 }
 
 type robustResult struct {
@@ -112,21 +113,19 @@ func execCase(rc robustCase) (outcome, detail string) {
 				out = o
 			}
 		}
-		// every kind of reader a caller may hand over (the library may treat some of them specially)
+		// one of the kinds of reader a caller may hand over (the library may treat some of them specially)
 		n := 0
-		var firstErr error
-		for _, kind := range []string{"bytes", "buffer", "bufio", "strings", "eagereof"} {
-			err := avro.ReadFile(makeReader(kind, rc.Bytes), out, func(val unsafe.Pointer, rb *avro.ResourceBank) error {
-				n++
-				rb.Close()
-				return nil
-			})
-			if err != nil && firstErr == nil {
-				firstErr = err
-			}
+		kind := rc.Kind
+		if kind == "" {
+			kind = "bytes"
 		}
-		if firstErr != nil {
-			return "err", firstErr.Error()
+		err := avro.ReadFile(makeReader(kind, rc.Bytes), out, func(val unsafe.Pointer, rb *avro.ResourceBank) error {
+			n++
+			rb.Close()
+			return nil
+		})
+		if err != nil {
+			return "err", err.Error()
 		}
 		return "ok", fmt.Sprintf("%d records", n)
 	case "history":
@@ -427,7 +426,19 @@ func spliceVarint(b []byte, at int, repl []byte) []byte {
 
 func driveC06(c *driverCtx) error {
 	var cases []robustCase
-	add := func(rc robustCase) { cases = append(cases, rc) }
+	// file inputs are read twice, each time through ONE kind of reader (allocation is measured per case):
+	// bytes.Reader and one of the others in rotation
+	nfile := 0
+	add := func(rc robustCase) {
+		if rc.Entry == "readfile" {
+			nfile++
+			rc.Kind = "bytes"
+			cases = append(cases, rc)
+			rc.Kind = []string{"buffer", "bufio", "strings", "eagereof"}[nfile%4]
+			rc.Key += "|" + rc.Kind
+		}
+		cases = append(cases, rc)
+	}
 
 	// (1) TLC-generated single-field mutations of valid encodings -> Read, Skip, ReadFile
 	if c.cases != "" {
@@ -464,6 +475,11 @@ func driveC06(c *driverCtx) error {
 	// (2) container framing: every varint of the header and of each block replaced
 	files := readerFiles(c, false)
 	for fi, rf := range files {
+		if rf.name == "zero-width-records" {
+			// a block of records that take no bytes may declare any count: the mechanism of the listed known finding
+			// (zero-byte items), kept to its dedicated witnesses
+			continue
+		}
 		f, err := splitContainer(rf.bytes)
 		if err != nil {
 			continue
